@@ -313,11 +313,11 @@ def ctor_fields(cx, call):
         if lk and lk[0] == 'class':
             r = cx.model.find_method(f[1], lk[1], '__init__')
             if r:
-                names = [a.arg for a in r[2].args.args][1:]
+                names = [a.arg for a in r[2].args.posonlyargs + r[2].args.args][1:]
             else:
                 names = [n.target.id for n in lk[1].body if isinstance(n, _ast.AnnAssign) and isinstance(n.target, _ast.Name)]
         elif lk and lk[0] == 'func':
-            names = [a.arg for a in lk[1].args.args]
+            names = [a.arg for a in lk[1].args.posonlyargs + lk[1].args.args]
     out = {}
     if names is not None:
         for i, a in enumerate(call[2]):
